@@ -174,6 +174,41 @@ func c30Gen(runSeed uint64, tier string) *gen.Scenario {
 		sc.Requests[i].Kind = "expand"
 		sc.Requests[i].User = ""
 		sc.Requests[i].Ctx = nil
+		// contextual tuples that repeat stored tuples of the expanded object and relation (any of them,
+		// not only the first the datastore returns): a user must still be listed once
+		if g.Chance(0.4) {
+			var same []rm.Tuple
+			for _, t := range sc.Tuples {
+				if t.Obj == sc.Requests[i].Obj && t.Rel == sc.Requests[i].Rel && sc.Model.ValidForWrite(t) && !sc.Model.AmbiguousCondShape(t) {
+					same = append(same, t)
+				}
+			}
+			g.R.Shuffle(len(same), func(a, b int) { same[a], same[b] = same[b], same[a] })
+			have := map[string]bool{}
+			for _, t := range sc.Requests[i].CtxTuples {
+				have[t.Key()] = true
+			}
+			for k := 0; k < len(same) && k < 1+g.Intn(3); k++ {
+				if !have[same[k].Key()] {
+					sc.Requests[i].CtxTuples = append(sc.Requests[i].CtxTuples, same[k])
+				}
+			}
+		}
+	}
+	// several stored tuples on the objects that get expanded
+	if len(sc.Requests) > 0 && g.Chance(0.6) {
+		have := map[string]bool{}
+		for _, t := range sc.Tuples {
+			have[t.Key()] = true
+		}
+		for _, t := range g.Tuples(sc.Model, 30, 0) {
+			r := gen.Pick(g, sc.Requests)
+			t.Obj, t.Rel = r.Obj, r.Rel
+			if !have[t.Key()] && sc.Model.ValidForWrite(t) && !sc.Model.AmbiguousCondShape(t) {
+				have[t.Key()] = true
+				sc.Tuples = append(sc.Tuples, t)
+			}
+		}
 	}
 	if g.Chance(0.25) {
 		sc.Knobs["faults"] = int64(simstore.FaultOpenErr | simstore.FaultIterErr)
